@@ -266,7 +266,7 @@ impl Usage<'_> {
 
         let mut unrolled_reqs = Vec::new();
         for a in required.iter() {
-            let is_relevant = |(val, req_arg): &(ArgPredicate, Id)| -> Option<Id> {
+            let is_relevant = |_owner: &Id, (val, req_arg): &(ArgPredicate, Id)| -> Option<Id> {
                 let required = match val {
                     ArgPredicate::Equals(_) => false,
                     ArgPredicate::IsPresent => true,
@@ -398,11 +398,11 @@ impl Usage<'_> {
 
         let mut unrolled_reqs = Vec::new();
         for a in required.iter() {
-            let is_relevant = |(val, req_arg): &(ArgPredicate, Id)| -> Option<Id> {
+            let is_relevant = |owner: &Id, (val, req_arg): &(ArgPredicate, Id)| -> Option<Id> {
                 let required = match val {
                     ArgPredicate::Equals(_) => {
                         if let Some(matcher) = matcher {
-                            matcher.check_explicit(a, val)
+                            matcher.check_explicit(owner, val)
                         } else {
                             false
                         }
